@@ -147,6 +147,8 @@ namespace
             make_clients_cdouble(clients);
             make_clients_pod24(clients);
             make_clients_pod4096(clients);
+            make_clients_over32(clients);
+            make_clients_over64(clients);
             size_t before = clients.size();
             make_clients_default(clients);
             for (size_t i = before; i < clients.size(); ++i)
